@@ -32,6 +32,8 @@ func runC19(c *Ctx, r *Run) {
 	r.Rule("FS-7", "every field of a self-writing struct type is read by its WriteTo (or the codec it delegates to)")
 	r.Rule("ENC-2", "every transcript writer is total on its type: no value is refused")
 	r.Rule("ENC-1", "each typed writer is injective as a whole: at most one undelimited variable-width segment, none inside loops; loops write fixed-width or length-prefixed items")
+	r.Rule("DOM-3", "an ad-hoc domain tags one item per function (two items tagged alike are not separated)")
+	r.Rule("DOM-2", "ad-hoc tagged items (BytesWithDomain literals) carry a payload their writer accepts: never the nil constant")
 	r.Rule("DOM-1", "domain strings are non-empty constants, pairwise distinct across writer types; ad-hoc BytesWithDomain literals use constant non-empty domains")
 	r.Rule("FS-4", "nothing can be dropped by the type switch: every static argument type at WriteAny/Fork/Commit/Decommit/New call sites is []byte, *big.Int, WriterToWithDomain or BinaryMarshaler")
 	r.Rule("COM-1", "commitments: Commit and Decommit absorb the items in order, then the decommitment, on a clone of the state; Decommit validates c and d first and compares full digests; Validate rejects wrong length and all-zero; decommitment comes from crypto/rand with the error checked")
@@ -55,6 +57,8 @@ func runC19(c *Ctx, r *Run) {
 	r.Require("ENC-0", 3)
 	r.Require("ENC-1", 17)
 	r.Require("DOM-1", 20)
+	r.Require("DOM-2", 15)
+	r.Require("DOM-3", 15)
 	r.Require("FS-4", 150)
 	r.Require("COM-1", 10)
 }
@@ -1055,6 +1059,18 @@ func checkDomains(c *Ctx, r *Run, impls []writerImpl) {
 		r.Unresolved("DOM-1", "pkg/hash.BytesWithDomain")
 		return
 	}
+	seenTags := map[string]map[string]bool{}
+	// does the writer of the carrier refuse a nil payload? (BytesWithDomain.WriteTo: `if b.Bytes == nil { return 0, err }`)
+	writerRefusesNil := false
+	if wt := c.LookupMethod("pkg/hash", "BytesWithDomain", "WriteTo"); wt != nil {
+		for _, g := range rejectGuards(wt) {
+			if strings.Contains(g.decider, "!= nil") && containsPrefix(g.fields, "recv") {
+				writerRefusesNil = true
+			}
+		}
+	} else {
+		r.Unresolved("DOM-2", "pkg/hash.BytesWithDomain.WriteTo")
+	}
 	for _, p := range c.LibPkgs() {
 		for _, f := range p.Syntax {
 			var encl string
@@ -1103,6 +1119,48 @@ func checkDomains(c *Ctx, r *Run, impls []writerImpl) {
 					detail = "ad-hoc domain " + val + " equals the domain of typed writer " + o
 				}
 				r.Check("DOM-1", key+"|"+val, c.Pos(cl.Pos()), ok2, "ad-hoc domain "+val+" is a non-empty constant distinct from every typed writer's domain", detail)
+				// DOM-2: the writer of this type refuses a nil payload (BytesWithDomain.WriteTo answers ErrUnexpectedEOF), so
+				// a literal whose Bytes is omitted or the constant nil can never be hashed: WriteAny fails on it, and the
+				// sinks that discard that error (Fork, HashForID) silently drop the item - its domain tag included
+				var payload ast.Expr
+				keyed := false
+				for i, e := range cl.Elts {
+					if kv, ok := e.(*ast.KeyValueExpr); ok {
+						keyed = true
+						if id, ok := kv.Key.(*ast.Ident); ok && id.Name == "Bytes" {
+							payload = kv.Value
+						}
+					} else if i == 1 {
+						payload = e
+					}
+				}
+				_ = keyed
+				nilPayload := payload == nil
+				if payload != nil {
+					if ptv, has := p.TypesInfo.Types[payload]; has && ptv.IsNil() {
+						nilPayload = true
+					}
+				}
+				// DOM-3: two items tagged alike inside one function separate nothing from each other (the three
+				// multiplications of one Doerner signature forked under "Multiply0", "Multiply1", "Multiply1")
+				if ok2 {
+					fk := c.Rel(p.Types) + "." + encl
+					if seenTags[fk] == nil {
+						seenTags[fk] = map[string]bool{}
+					}
+					dup := seenTags[fk][val]
+					seenTags[fk][val] = true
+					if dup {
+						r.Check("DOM-3", key+"|"+val+"|used-once", c.Pos(cl.Pos()), false, "", "the ad-hoc domain "+val+" tags two different items of "+encl+": the two derivations it was meant to separate read the same stream")
+					} else {
+						r.Hold("DOM-3", key+"|"+val+"|used-once", c.Pos(cl.Pos()), "the ad-hoc domain is used for one item of this function")
+					}
+				}
+				if !writerRefusesNil {
+					nilPayload = false // the writer takes a nil payload as the empty string: a bare tag is absorbed
+				}
+				r.Check("DOM-2", key+"|"+val+"|payload", c.Pos(cl.Pos()), !nilPayload, "the tagged item has a payload its writer accepts (Bytes is not the nil constant)",
+					"BytesWithDomain{"+val+", Bytes: nil}: WriteTo refuses a nil payload, so this item is never absorbed - Fork/HashForID discard the error and return the unchanged state; every such tag yields the same digest as no tag at all (domain separation is lost)")
 				return true
 			})
 		}
